@@ -272,6 +272,15 @@ def check(case, ctx):
     if Qc is None or not (Qc.shape == (len(g), 4) and np.all(np.isfinite(Qc))):
         ctx.note("fault-free twin is not a valid run (%s; C03's business): recovery not judged" % (clean.exc_name or "non-finite"))
         Qc = None
+    if Qc is not None and name.startswith("ROLEQ") and not mask[0]:
+        # ROLEQ's first attitude is an OLEQ estimate from a random start (21 iterations: not always converged, a recorded C04 finding); when the
+        # fault-free run itself still depends on that start at the time of the fault there is no "normal" estimate to return to
+        np.random.seed(54321)
+        clean2 = call(run, name, g, a, m, p["dip"])
+        k0 = int(np.argmax(mask))
+        if clean2.ok and diff(name, np.asarray(clean2.value[0], float)[k0], Qc[k0]) > (tol or 0.0):
+            ctx.note("fault-free ROLEQ run still depends on OLEQ's random start when the fault begins: recovery not judged")
+            Qc = None
     Q, st = out.value
     Q = np.asarray(Q)
     if not ctx.ok("one real quaternion per sample", Q.dtype != object and not np.iscomplexobj(Q) and Q.shape == (len(g), 4), {"shape": list(Q.shape), "fault": what}):
